@@ -48,14 +48,21 @@ MESHFILES = "test/meshfiles"
 def spec_of(m: meshes.AMesh, name=None, centres=None):
     s = dict(name=name or m.kind, lon=[float(x) for x in m.lon], lat=[float(x) for x in m.lat],
              faces=[list(map(int, f)) for f in m.faces])
-    if centres is not None:
+    if centres is not None and len(centres) == 2:
         s["face_lon"], s["face_lat"] = [float(x) for x in centres[0]], [float(x) for x in centres[1]]
+    elif centres is not None:  # cartesian centres, as a file with xCell/yCell/zCell would supply them
+        s["face_x"], s["face_y"], s["face_z"] = ([float(x) for x in c] for c in centres)
     return s
 
 
 def build_grid(ux, spec):
     if "file" in spec:
-        return ux.open_grid(str(common.REPO / MESHFILES / spec["file"]))
+        path = common.REPO / MESHFILES / spec["file"]
+        if not path.exists():  # scratch copies of the package carry no sample files
+            from pathlib import Path
+
+            path = Path("/repo") / MESHFILES / spec["file"]
+        return ux.open_grid(str(path))
     faces = spec["faces"]
     w = max(len(f) for f in faces)
     t = np.full((len(faces), w), INT_FILL, dtype=np.int64)
@@ -64,6 +71,8 @@ def build_grid(ux, spec):
     kw = {}
     if "face_lon" in spec:
         kw = dict(face_lon=np.array(spec["face_lon"], dtype=float), face_lat=np.array(spec["face_lat"], dtype=float))
+    if "face_x" in spec:
+        kw = {c: np.array(spec[c], dtype=float) for c in ("face_x", "face_y", "face_z")}
     return ux.Grid.from_topology(node_lon=np.array(spec["lon"], dtype=float), node_lat=np.array(spec["lat"], dtype=float),
                                  face_node_connectivity=t, fill_value=INT_FILL, **kw)
 
@@ -71,7 +80,8 @@ def build_grid(ux, spec):
 def describe(spec):
     if "file" in spec:
         return dict(file=spec["file"])
-    return dict(name=spec["name"], n_node=len(spec["lon"]), n_face=len(spec["faces"]), file_centres="face_lon" in spec)
+    return dict(name=spec["name"], n_node=len(spec["lon"]), n_face=len(spec["faces"]),
+                file_centres="lonlat" if "face_lon" in spec else "xyz" if "face_x" in spec else False)
 
 
 def lonlat(g, kind):
@@ -130,7 +140,7 @@ def polygons(k, rng):
     return m.rotated(meshes.random_rotation(rng)) if rng.random() < 0.5 else m
 
 
-def off_centres(m, rng):
+def off_centres(m, rng, xyz=False):
     """face centres as a file would supply them: inside the face but NOT the centroid"""
     c = []
     for f in m.faces:
@@ -138,6 +148,8 @@ def off_centres(m, rng):
         p = (m.xyz[f] * w[:, None]).sum(0)
         c.append(p / np.linalg.norm(p))
     c = np.array(c)
+    if xyz:
+        return c[:, 0], c[:, 1], c[:, 2]
     return np.degrees(np.arctan2(c[:, 1], c[:, 0])), np.degrees(np.arcsin(np.clip(c[:, 2], -1, 1)))
 
 
@@ -150,7 +162,7 @@ def grid_pairs(ctx):
     def H(n):
         return meshes.hull(n, rng)
 
-    for rep in range(ctx.n(1, 5)):
+    for rep in range(ctx.n(4, 40)):
         h1, h2 = H(rng.choice([6, 8, 10, 14])), H(rng.choice([7, 9, 12, 16]))
         out.append((spec_of(h1), spec_of(h2), "hull->hull"))
         out.append((spec_of(h1), spec_of(h1), "self"))
@@ -169,6 +181,11 @@ def grid_pairs(ctx):
         hs, hd = H(rng.choice([8, 12])), H(rng.choice([6, 10]))
         out.append((spec_of(hs, hs.kind + "+filecentres", off_centres(hs, rng)), spec_of(hd), "filecentres->hull"))
         out.append((spec_of(hd), spec_of(hs, hs.kind + "+filecentres", off_centres(hs, rng)), "hull->filecentres"))
+        hx = H(rng.choice([8, 10]))
+        out.append((spec_of(hx, hx.kind + "+filecentres(xyz)", off_centres(hx, rng, xyz=True)), spec_of(hd), "filecentres(xyz)->hull"))
+        # nodes exactly at the poles / on the equator
+        bp = meshes.bipyramid(rng.choice([4, 5, 6]), lon0=rng.choice([0.0, 180.0, rng.uniform(-180, 180)]))
+        out.append((spec_of(bp), spec_of(hd), "polar->hull") if rng.random() < 0.5 else (spec_of(hd), spec_of(bp), "hull->polar"))
         # destination = slightly moved source (distances comparable to ε)
         hj = jitter(h1, rng, rng.choice([1e-3, 1e-5, 1e-7]), h1.kind + "+moved")
         out.append((spec_of(h1), spec_of(hj), "near-coincident"))
@@ -176,7 +193,7 @@ def grid_pairs(ctx):
         p = meshes.patch(rng.choice([2, 3]), rng.choice([1, 2]), lon0=rng.choice([-30, 150, 170.5]), lat0=rng.choice([-20, 40, 60]))
         out.append((spec_of(p), spec_of(meshes.prism(rng.choice([3, 5]), lon0=rng.uniform(-180, 180))), "patch->prism"))
         out.append((spec_of(meshes.icosa().rotated(meshes.random_rotation(rng))), spec_of(H(8)), "icosa->hull"))
-    if big:
+    for _ in range(3 if big else 0):
         hb = H(rng.choice([40, 60]))
         out.append((spec_of(hb), spec_of(meshes.dual_of(H(30))), "hull40->dual"))
         out.append((spec_of(jitter(meshes.cube_sphere(4), rng)), spec_of(hb), "cube4->hull"))
@@ -230,6 +247,7 @@ def run_case(ctx, ux, env: Env, case):
     k, power = int(case.get("k", 1)), float(case.get("power", 2))
     n_src, n_dst = env.counts["s"][skind], env.counts["d"][dkind]
     c = env.counts["s"]
+    case = {kk: v for kk, v in case.items() if not (kk == "data" and v == "one-hot")}
     if method == "weights":
         data = np.eye(n_src)
         lead = (n_src,)
@@ -259,7 +277,7 @@ def run_case(ctx, ux, env: Env, case):
     single = n_dst == 1
     if single:
         ctx.hit("single-destination")
-    filec = ("face_lon" in env.sspec and skind == "face") or ("face_lon" in env.dspec and dkind == "face") \
+    filec = (("face_lon" in env.sspec or "face_x" in env.sspec) and skind == "face") or ("face_lon" in env.dspec and dkind == "face") \
         or ("file" in env.sspec) or ("file" in env.dspec)
     if filec:
         ctx.hit("file-supplied-centres")
@@ -289,9 +307,9 @@ def run_case(ctx, ux, env: Env, case):
         if method != "nn" and not adm:
             ctx.hit("inadmissible-k-refused")
             return
-        if method != "nn" and adm and not asis_adm and not single:
-            ctx.fail("C12/idw/k-guard/admissible-k-refused(k>n_node)",
-                     f"k={k} <= {n_src} source elements ({DIM[skind]}) is refused because k > n_node={c['node']}: {msg}",
+        if method != "nn" and adm and "Number of nearest neighbors" in str(e):
+            ctx.fail("C12/idw/k-guard/admissible-k-refused",
+                     f"k={k} with {n_src} source elements ({DIM[skind]}; n_node={c['node']}) is admissible but refused: {msg}",
                      inp, msg, "accepted", ["k_guard"])
             return
         ctx.fail(sig(f"raises-{type(e).__name__}"), f"remap raises {msg}", inp, msg, None, ["remap_shape" if single else "raises"])
@@ -354,9 +372,12 @@ def run_case(ctx, ux, env: Env, case):
                      f"of the {k} nearest source {skind} values; {len(fails)} of {n_dst} destination points",
                      inp, obs, dict(failing=fails), ["idw_between_min_max"])
         elif not (diff <= 1e-6 * (1 + amax)):
-            if bad_xyz:
-                ctx.fail(sig("value"), "IDW value differs from the model on the grid's lon/lat points", inp, obs, dict(maxdiff=diff), ["idw_value"])
-            else:
+            # the value differs from the model although it is inside [min, max]: let the weight
+            # specification decide (one-hot data expose the implementation's weights)
+            before = len(ctx.failures)
+            if n_src <= 200 and not case.get("followup"):
+                run_case(ctx, ux, env, dict(method="weights", skind=skind, dkind=dkind, coord=coord, k=k, power=power, followup=True))
+            if len(ctx.failures) == before:
                 ctx.mismatch("C12/idw-value-vs-model", inp, obs, dict(maxdiff=diff))
         return
     # one-hot data: the output is the implementation's weight matrix
@@ -375,10 +396,7 @@ def run_case(ctx, ux, env: Env, case):
                  f"inverse_distance_weighted(k={k}, power={power:g}): weights at destination {dkind} {fw[0]} are not non-negative / summing to one / "
                  f"non-increasing with distance", inp, obs, dict(failing=fw), ["idw_weights_nonneg", "idw_weights_sum_one", "idw_antitone"])
     elif not (diff <= 1e-6):
-        if bad_xyz:
-            ctx.fail(sig("weights-value"), "IDW weights differ from the model on the grid's lon/lat points", inp, obs, dict(maxdiff=diff), ["idw_weights"])
-        else:
-            ctx.mismatch("C12/idw-weights-vs-model", inp, obs, dict(maxdiff=diff))
+        ctx.mismatch("C12/idw-weights-vs-model", inp, obs, dict(maxdiff=diff))
 
 
 # ----------------------------------------------------------------------------------------------
@@ -408,7 +426,7 @@ def cases_for(ctx, env: Env, budget):
         prio += [("edge", "edge", "spherical"), ("edge", "face", "cartesian")]
     if env.counts["d"]["face"] == 1:
         prio += [("node", "face", "spherical"), ("face", "face", "cartesian")]
-    if "face_lon" in env.sspec or "file" in env.sspec:
+    if "face_lon" in env.sspec or "face_x" in env.sspec or "file" in env.sspec:
         prio += [("face", "node", "spherical"), ("face", "face", "cartesian")]
     if "face_lon" in env.dspec or "file" in env.dspec:
         prio += [("node", "face", "spherical"), ("face", "face", "cartesian")]
@@ -461,8 +479,15 @@ def run(ctx):
         "IEEE rounding: convexity is judged with tolerance 1e-9·(1+max|data|), weights with 1e-9, model agreement with 1e-6",
         "the literal 1e-6 of the implementation is the model parameter ε (theorems hold for every ε > 0)",
     ]
+    # minimised past failures / regression witnesses first
+    import json
+
+    for f in sorted((common.CORPUS / "C12").glob("*.json")):
+        inp = json.loads(f.read_text())["input"]
+        ctx.hit("corpus")
+        run_case(ctx, ux, Env(ux, inp["source"], inp["destination"], inp["tag"]), dict(inp["case"]))
     pairs = grid_pairs(ctx)
-    budget = ctx.n(6, 18)
+    budget = ctx.n(8, 18)
     for sspec, dspec, tag in pairs:
         env = Env(ux, sspec, dspec, tag)
         for case in cases_for(ctx, env, budget):
@@ -476,7 +501,4 @@ def replay(ctx, rp):
 
     inp = rp["input"]
     env = Env(ux, inp["source"], inp["destination"], inp.get("tag", "replay"))
-    case = dict(inp["case"])
-    if case.get("data") == "one-hot":
-        case.pop("data")
-    run_case(ctx, ux, env, case)
+    run_case(ctx, ux, env, dict(inp["case"]))
